@@ -160,6 +160,7 @@ def _once(case, acc, nodes):
     attriter = childiter = None
     dx_maxlevel = None
     dictexporter = None
+    dkw = {}
     if dx is not None:
         attriter = c10.attriter_of(dx["attriter"])
         childiter = c10.childiter_of(dx["childiter"])
@@ -221,6 +222,34 @@ def _once(case, acc, nodes):
         elif got_raw != raw:
             raise Violation("write-text", "write() into a %s file produced %r, the exported text encodes to %r" % (encoding, got_raw, raw))
         acc.tag("writes_into_non_utf8_text_files", raw is not None and not expected_written.isascii())
+    # a NEW exporter (with a new DictExporter of its own) whose first call is write(), not export()
+    fresh_dx = DictExporter(**dkw) if dx is not None else None
+    fresh = JsonExporter(dictexporter=fresh_dx, maxlevel=maxlevel, **kwargs)
+    first = io.StringIO()
+    fresh.write(start, first)
+    if first.getvalue() != expected_written:
+        raise Violation("write-text", "write() as the first call on a new exporter emitted %r, expected %r" % (first.getvalue()[:300], expected_written[:300]))
+    # a long-lived exporter whose public options are changed between two calls: kwargs edited in place, maxlevel re-assigned
+    if not case.get("encoder"):
+        edited = dict(kwargs)
+        edited["indent"] = 1 if kwargs.get("indent") is None else None
+        edited["sort_keys"] = not kwargs.get("sort_keys", False)
+        fresh.kwargs["indent"] = edited["indent"]
+        fresh.kwargs.update(sort_keys=edited["sort_keys"])
+        want_edited = json.dumps(ref, **edited)
+        if fresh.export(start) != want_edited:
+            raise Violation("export-text", "after exporter.kwargs was edited in place (indent, sort_keys) export() = %r, json.dumps with the new options = %r" % (fresh.export(start)[:300], want_edited[:300]))
+        again = io.StringIO()
+        fresh.write(start, again)
+        if again.getvalue() != want_edited:
+            raise Violation("write-text", "after exporter.kwargs was edited in place write() emitted %r, expected %r" % (again.getvalue()[:300], want_edited[:300]))
+        fresh.maxlevel = 1
+        cut = io.StringIO()
+        fresh.write(start, cut)
+        want_cut = json.dumps(c10.ref_export(start, attriter, childiter or list, dict, 1), **edited)
+        if cut.getvalue() != want_cut:
+            raise Violation("write-text", "after exporter.maxlevel = 1, write() (before any export()) emitted %r, expected %r" % (cut.getvalue()[:300], want_cut[:300]))
+        acc.tag("options_changed_on_a_living_exporter")
     if c10.tree_state(nodes) != before:
         raise Violation("export-modifies-tree", "JSON export modified the tree")
     # import
